@@ -604,10 +604,22 @@ func (x *Exec) syncMap(st *State, fn *ssa.Function, args []SVal, pos token.Pos, 
 	for w := range st.Written {
 		before[w] = true
 	}
+	nev := len(st.Events)
 	x.run(st, f.Fn, []SVal{key, val}, f.Binds, func(st2 *State, ex Exit) {
 		if ex.Kind != ExitReturn {
 			k(st2, ex)
 			return
+		}
+		// a body that hands something to the element it visits (a broadcast) goes on to the next element: the
+		// abstraction runs it for one generic element, so "every observer is visited" is the callback answering true
+		delivers := false
+		for _, ev := range st2.Events[min(nev, len(st2.Events)):] {
+			if strings.HasPrefix(ev.Name, "elem.") || ev.Name == m+".Delete" {
+				delivers = true // (or removes it: unsubscribeAll empties the map only if it goes on after the first entry)
+			}
+		}
+		if delivers && len(ex.Results) == 1 && ex.Results[0].K == KBool {
+			x.obl(st2, "broadcast/visits-every-element", ex.Results[0].T, "a sync.Map.Range callback that delivers to the element it visits returns true (goes on to the next one)", pos)
 		}
 		for w := range st2.Written {
 			if !before[w] && !strings.HasPrefix(w, "new#") && !strings.HasPrefix(w, "arr@") {
